@@ -8,7 +8,7 @@ from concurrent.futures import ThreadPoolExecutor
 
 import numpy as np
 
-from .. import env, inputs, par, readcalls, session, tlc
+from .. import env, hstate, inputs, par, readcalls, session, tlc
 from ..tlc import NONE
 from . import c02
 
@@ -430,11 +430,27 @@ def run(run):
                    False, 0, f'worker process died ({res})')
         if merge(run, res):
             run.traces_validated += 1
+    # the header / trace-position state of the reader objects of a survey with holes, as its own state machine (SgzHeaderState):
+    # TLC checks the properties for histories of any length, generates every history up to a depth, the real objects replay them
+    run.mc('MC_HeaderState', 'MC_HeaderState', workers=4)
+    hole_file = [p for p in inputs.fixture_sgz() if p.endswith('/small_hole.sgz')][0]
+    hfc = [c for c in cases if c.path == hole_file]
+    mask = [bool(m) for m in (hfc[0].F['mask'] if hfc else session.load_files([session.FileCase(hole_file)], run)[0].F['mask'])]
+    hstate.run_pass(run, hole_file, mask, 3)
+    if not quick:       # depth 4 over the calls of the plain reader and the header accessor
+        hstate.run_pass(run, hole_file, mask, 4, sample=250000, rng=rng, only='RH')
     run.extra['depth'] = 'every history of depth 2; sandwiches a;m;b; ' + ('' if quick else 'every history of depth 3 over a core alphabet of <= 16 calls')
 
 
 def replay(run, rep):
     case = rep['case']
+    if 'header_state' in case:
+        path = [p for p in inputs.fixture_sgz() if p.endswith('/' + case['file'])][0]
+        with open(path, 'rb') as f:
+            data = f.read()
+        ok, step, detail, _ = hstate.replay(path, data, case['header_state'])
+        run.check(ok, rep['clause'], case, detail, None)
+        return
     fc = [c for c in files_for(run) if c.label == case['file']][0]
     A = [dict({'r': e[0], 'op': e[1], 'a': e[2]}, **({'slice': True} if len(e) > 3 else {})) for e in case['history']]
     answers = session.eval_calls([fc], [(0, c['op'] if c['op'] not in ('close', 'get_tracefield_values', 'read_variant_headers') else 'read_volume',
